@@ -142,7 +142,7 @@ def _case_a(draw):
     return {"main": draw(_segs(0, 8)), "templates": templates, "ctx": draw(_ctx()), "strict": draw(st.sampled_from([False, False, True])), "plant": None,
             "pre": draw(st.sampled_from([False, False, True])),
             "reg": draw(st.sampled_from(["named", "named", "override", "shared-name", "ctor", "create"])),
-            "main_mode": draw(st.sampled_from(["object", "object", "unnamed", "by-name", "same-name-as-include"]))}
+            "main_mode": draw(st.sampled_from(["object", "object", "unnamed", "by-name", "same-name-as-include", "synthesize"]))}
 
 
 def _plant_case(channel, construct, pre, post, extra_ctx):
@@ -227,7 +227,7 @@ def _strict_table():
                     yield {"main": main, "templates": tpls, "ctx": ctx, "strict": strict, "plant": None, "pre": pre}
                 if tpls and bound:
                     for reg in ("override", "shared-name", "ctor", "create"):
-                        for mm in ("object", "unnamed", "by-name", "same-name-as-include"):
+                        for mm in ("object", "unnamed", "by-name", "same-name-as-include", "synthesize"):
                             yield {"main": main, "templates": tpls, "ctx": ctx, "strict": strict, "plant": None, "pre": False, "reg": reg, "main_mode": mm}
 
 
@@ -462,12 +462,12 @@ def judge(case):
         for strict_flag, pre_ctx in ((True, only_main), (True, {}), (False, as_ints), (False, other)):
             rib.strict = strict_flag
             try:
-                rib.translate(main_template(), **pre_ctx)
+                (rib.synthesize(text, **pre_ctx) if main_mode == "synthesize" else rib.translate(main_template(), **pre_ctx))
             except Exception:
                 pass
         rib.strict = saved
     try:
-        protein = rib.translate(main_template(), **ctx)
+        protein = rib.synthesize(text, **ctx) if main_mode == "synthesize" else rib.translate(main_template(), **ctx)
     except ValueError as e:
         if not case["strict"]:
             out.fail("raise:ValueError:non-strict", "translate raised %s in non-strict mode" % e, d)
